@@ -28,7 +28,6 @@ import (
 	"github.com/nuts-foundation/go-stoabs"
 	"github.com/nuts-foundation/go-stoabs/bbolt"
 	"github.com/nuts-foundation/nuts-node/core"
-	"github.com/nuts-foundation/nuts-node/crypto/hash"
 	"github.com/nuts-foundation/nuts-node/storage"
 	"github.com/nuts-foundation/nuts-node/vdr/didnuts/didstore"
 	"github.com/nuts-foundation/nuts-node/vdr/resolver"
@@ -149,6 +148,9 @@ type observation struct {
 	latest     map[int]result // per DID index: Resolve(id, AllowDeactivated)
 	latestNil  map[int]result // per DID index: Resolve(id, nil)
 	rawSources []string       // of every result with > 1 source, in order of collection
+	docs       map[string]bool // every document serialisation returned by any read
+	// byHashMismatch: Resolve by the hash of a stored version returned another document or hash (observation)
+	byHashMismatch string
 }
 
 func iterContents(iterate func(fn resolver.DocIterator) error) string {
@@ -165,9 +167,12 @@ func iterContents(iterate func(fn resolver.DocIterator) error) string {
 }
 
 func observe(t *testing.T, s didstore.Store, c *compiled) observation {
-	o := observation{latest: map[int]result{}, latestNil: map[int]result{}}
+	o := observation{latest: map[int]result{}, latestNil: map[int]result{}, docs: map[string]bool{}}
 	add := func(name string, r result) {
 		o.Fields = append(o.Fields, field{name, r.String()})
+		if r.Doc != nil {
+			o.docs[string(r.Doc)] = true
+		}
 		if len(r.rawSources) > 1 {
 			o.rawSources = append(o.rawSources, name+":"+strings.Join(r.rawSources, ","))
 		}
@@ -184,7 +189,10 @@ func observe(t *testing.T, s didstore.Store, c *compiled) observation {
 		for _, tm := range c.times {
 			tm := tm
 			add(fmt.Sprintf("%sby-time/%+d", p, int(tm.Sub(t0)/time.Second)), normalise(s.Resolve(id, &resolver.ResolveMetadata{ResolveTime: &tm, AllowDeactivated: true})))
-			add(fmt.Sprintf("%sby-time-active/%+d", p, int(tm.Sub(t0)/time.Second)), normalise(s.Resolve(id, &resolver.ResolveMetadata{ResolveTime: &tm})))
+			if c.hasDeactivation(d) {
+				// without AllowDeactivated the store skips deactivated versions and answers with an earlier active one
+				add(fmt.Sprintf("%sby-time-active/%+d", p, int(tm.Sub(t0)/time.Second)), normalise(s.Resolve(id, &resolver.ResolveMetadata{ResolveTime: &tm})))
+			}
 		}
 		for i, e := range c.events {
 			if e.did != d {
@@ -194,12 +202,27 @@ func observe(t *testing.T, s didstore.Store, c *compiled) observation {
 			add(fmt.Sprintf("%sby-hash/e%d", p, i), normalise(s.Resolve(id, &resolver.ResolveMetadata{Hash: &h, AllowDeactivated: true})))
 			add(fmt.Sprintf("%sby-tx/e%d", p, i), normalise(s.Resolve(id, &resolver.ResolveMetadata{SourceTransaction: &ref, AllowDeactivated: true})))
 		}
-		// the whole version chain, walked by previous hash from the latest version
-		cur := r1
-		for k := 0; k < len(c.events)+2 && cur.Meta != nil && cur.Meta.PrevHash != ""; k++ {
-			h, _ := hash.ParseHex(cur.Meta.PrevHash)
-			cur = normalise(s.Resolve(id, &resolver.ResolveMetadata{Hash: &h, AllowDeactivated: true}))
-			add(fmt.Sprintf("%schain/%d", p, k), cur)
+		// every stored version (injected read-only export, aligned by version number), and resolve-by-hash of every
+		// version hash: only the document is compared there, because two versions with the same bytes share a hash
+		vs, verr := didstore.VerifVersions(s, id)
+		if verr != nil {
+			o.Fields = append(o.Fields, field{p + "versions", "ERR " + verr.Error()})
+		}
+		o.Fields = append(o.Fields, field{p + "version-count", fmt.Sprint(len(vs))})
+		for _, v := range vs {
+			v := v
+			if v.Version > len(c.events) {
+				break
+			}
+			rv := normalise(&v.Document, &v.Metadata, nil)
+			add(fmt.Sprintf("%sversion/%d", p, v.Version), rv)
+			h := v.Metadata.Hash
+			bh := normalise(s.Resolve(id, &resolver.ResolveMetadata{Hash: &h, AllowDeactivated: true}))
+			if bh.Meta != nil && (bh.Meta.Hash != rv.Meta.Hash || string(bh.Doc) != string(rv.Doc)) {
+				o.byHashMismatch = fmt.Sprintf("version %d", v.Version)
+			}
+			bh.Meta = nil
+			add(fmt.Sprintf("%sby-version-hash/%d", p, v.Version), bh)
 		}
 	}
 	cc, err := s.ConflictedCount()
@@ -223,70 +246,77 @@ func (o observation) key() string {
 }
 
 // ------------------------------------------------------------------ difference classification
+//
+// A difference between two executions is reduced to ONE structural class (plus, independently, the class of a
+// count difference), so that one defect has one signature however it was exposed:
+//
+//	stage A  all members (latest, by time, by event hash, by source transaction, every stored version, iterators)
+//	         compared in a canonical form WITHOUT document hashes and with the controller list sorted:
+//	         a difference here is a difference of content/metadata -> "document|<members>", "metadata:<members>",
+//	         "answer-kind", "iterator-membership", "tuple-shape";
+//	stage B  canonical forms agree but the raw members differ: only controller order and/or hashes differ.
+//	         If some document differs by controller order -> "controller-order" (the hash differences follow
+//	         from it), else "hash-only" / "document-bytes".
+//
+// No member is reached through a run-specific hash with its metadata compared, so a different hash cannot move
+// an answer to another version (versions are listed by number through the injected read-only export).
 
-// docDiffClass names the structural class of the difference between two DID document serialisations.
-func docDiffClass(a, b json.RawMessage) string {
-	var ma, mb map[string]any
-	if json.Unmarshal(a, &ma) != nil || json.Unmarshal(b, &mb) != nil {
-		return "document"
+func canonDoc(raw json.RawMessage) (canon string, members map[string]string) {
+	var m map[string]any
+	if json.Unmarshal(raw, &m) != nil {
+		return string(raw), nil
 	}
-	eq := func() bool { x, _ := json.Marshal(ma); y, _ := json.Marshal(mb); return string(x) == string(y) }
-	if eq() {
-		return "document-bytes" // same JSON value, different bytes (member order)
-	}
-	sortCtl := func(m map[string]any) {
-		if l, ok := m["controller"].([]any); ok {
-			s := make([]string, len(l))
-			for i, v := range l {
-				s[i] = fmt.Sprint(v)
-			}
-			sort.Strings(s)
-			m["controller"] = s
+	if l, ok := m["controller"].([]any); ok {
+		s := make([]string, len(l))
+		for i, v := range l {
+			s[i] = fmt.Sprint(v)
 		}
+		sort.Strings(s)
+		m["controller"] = s
 	}
-	sortCtl(ma)
-	sortCtl(mb)
-	if eq() {
-		return "controller-order"
+	members = map[string]string{}
+	for k, v := range m {
+		b, _ := json.Marshal(v)
+		members[k] = string(b)
 	}
-	names := map[string]bool{}
-	for k := range ma {
-		names[k] = true
-	}
-	for k := range mb {
-		names[k] = true
-	}
-	var diff []string
-	for k := range names {
-		x, _ := json.Marshal(ma[k])
-		y, _ := json.Marshal(mb[k])
-		if string(x) != string(y) {
-			diff = append(diff, k)
-		}
-	}
-	sort.Strings(diff)
-	return "document-members:" + strings.Join(diff, "+")
+	b, _ := json.Marshal(m)
+	return string(b), members
 }
 
-func resultDiffClass(a, b string) string {
+// resultDiff compares two serialised results. canonical=true ignores hashes and controller order.
+func resultDiff(a, b string, canonical bool) string {
 	var ra, rb result
 	if json.Unmarshal([]byte(a), &ra) != nil || json.Unmarshal([]byte(b), &rb) != nil {
+		if a == b {
+			return ""
+		}
 		return "unparsed"
 	}
 	if ra.Err != rb.Err {
 		return "answer-kind"
 	}
-	if string(ra.Doc) != string(rb.Doc) {
-		return docDiffClass(ra.Doc, rb.Doc)
+	if ra.Meta == nil || rb.Meta == nil {
+		return ""
 	}
-	if ra.Meta != nil && rb.Meta != nil {
+	if canonical {
+		ca, ma := canonDoc(ra.Doc)
+		cb, mb := canonDoc(rb.Doc)
+		if ca != cb {
+			var diff []string
+			for k := range ma {
+				if ma[k] != mb[k] {
+					diff = append(diff, k)
+				}
+			}
+			for k := range mb {
+				if _, ok := ma[k]; !ok {
+					diff = append(diff, k)
+				}
+			}
+			sort.Strings(diff)
+			return "document|" + strings.Join(diff, "+")
+		}
 		var d []string
-		if ra.Meta.Hash != rb.Meta.Hash {
-			d = append(d, "hash")
-		}
-		if ra.Meta.PrevHash != rb.Meta.PrevHash {
-			d = append(d, "previous-hash")
-		}
 		if strings.Join(ra.Meta.Sources, ",") != strings.Join(rb.Meta.Sources, ",") {
 			d = append(d, "source-transactions")
 		}
@@ -296,49 +326,37 @@ func resultDiffClass(a, b string) string {
 		if ra.Meta.Created != rb.Meta.Created || ra.Meta.Updated != rb.Meta.Updated {
 			d = append(d, "times")
 		}
-		return "metadata:" + strings.Join(d, "+")
+		if (ra.Meta.PrevHash == "") != (rb.Meta.PrevHash == "") {
+			d = append(d, "previous-hash-presence")
+		}
+		if len(d) > 0 {
+			return "metadata:" + strings.Join(d, "+")
+		}
+		return ""
 	}
-	return "metadata"
+	if string(ra.Doc) != string(rb.Doc) {
+		ca, _ := canonDoc(ra.Doc)
+		cb, _ := canonDoc(rb.Doc)
+		if ca == cb {
+			var x, y any
+			_ = json.Unmarshal(ra.Doc, &x)
+			_ = json.Unmarshal(rb.Doc, &y)
+			bx, _ := json.Marshal(x)
+			by, _ := json.Marshal(y)
+			if string(bx) == string(by) {
+				return "document-bytes"
+			}
+			return "controller-order"
+		}
+		return "document"
+	}
+	if ra.Meta.Hash != rb.Meta.Hash || ra.Meta.PrevHash != rb.Meta.PrevHash {
+		return "hash-only"
+	}
+	return ""
 }
 
-// diffClasses returns, per structural class, the names of the tuple members that differ.
-func diffClasses(ref, got observation, countClass func(refVal, gotVal string) string) map[string][]string {
-	out := map[string][]string{}
-	rm := map[string]string{}
-	for _, f := range ref.Fields {
-		rm[f.Name] = f.Val
-	}
-	seen := map[string]bool{}
-	for _, f := range got.Fields {
-		seen[f.Name] = true
-		rv, ok := rm[f.Name]
-		if ok && rv == f.Val {
-			continue
-		}
-		var cls string
-		switch {
-		case !ok:
-			cls = "tuple-shape" // e.g. a version chain of different length
-		case f.Name == "count/conflicted":
-			cls = countClass(rv, f.Val)
-		case f.Name == "count/documents":
-			cls = "document-count"
-		case strings.HasPrefix(f.Name, "iter/") || strings.HasPrefix(f.Name, "reopened/iter/"):
-			cls = iterDiffClass(rv, f.Val)
-		default:
-			cls = resultDiffClass(rv, f.Val)
-		}
-		out[cls] = append(out[cls], f.Name)
-	}
-	for _, f := range ref.Fields {
-		if !seen[f.Name] {
-			out["tuple-shape"] = append(out["tuple-shape"], f.Name)
-		}
-	}
-	return out
-}
-
-func iterDiffClass(a, b string) string {
+func iterDiff(a, b string, canonical bool) string {
 	la, lb := strings.Split(a, "\n"), strings.Split(b, "\n")
 	if len(la) != len(lb) {
 		return "iterator-membership"
@@ -352,9 +370,122 @@ func iterDiffClass(a, b string) string {
 		if ia < 0 || ib < 0 || la[i][:ia] != lb[i][:ib] {
 			return "iterator-membership"
 		}
-		cls = resultDiffClass(la[i][ia+1:], lb[i][ib+1:])
+		if c := resultDiff(la[i][ia+1:], lb[i][ib+1:], canonical); c != "" {
+			cls = c
+		}
 	}
 	return cls
+}
+
+func isCount(name string) bool { return strings.Contains(name, "count/") }
+func isIter(name string) bool  { return strings.Contains(name, "iter/") }
+
+// memberDiffs returns class -> member names over the members selected by keep.
+func memberDiffs(ref, got []field, canonical bool, keep func(name string) bool) map[string][]string {
+	out := map[string][]string{}
+	rm := map[string]string{}
+	for _, f := range ref {
+		if keep(f.Name) {
+			rm[f.Name] = f.Val
+		}
+	}
+	seen := map[string]bool{}
+	for _, f := range got {
+		if !keep(f.Name) {
+			continue
+		}
+		seen[f.Name] = true
+		rv, ok := rm[f.Name]
+		if ok && rv == f.Val {
+			continue
+		}
+		cls := ""
+		switch {
+		case !ok:
+			cls = "tuple-shape"
+		case isIter(f.Name):
+			cls = iterDiff(rv, f.Val, canonical)
+		default:
+			cls = resultDiff(rv, f.Val, canonical)
+		}
+		if cls != "" {
+			out[cls] = append(out[cls], f.Name)
+		}
+	}
+	for _, f := range ref {
+		if keep(f.Name) && !seen[f.Name] {
+			out["tuple-shape"] = append(out["tuple-shape"], f.Name)
+		}
+	}
+	return out
+}
+
+func (x execution) fields() []field { return append(append([]field{}, x.obs.Fields...), x.reopened.Fields...) }
+
+// unionDocClasses folds several "document|a+b" classes into one naming the union of members.
+func foldClasses(cl map[string][]string) map[string][]string {
+	out := map[string][]string{}
+	var members, fields []string
+	for k, v := range cl {
+		if strings.HasPrefix(k, "document|") {
+			members = append(members, strings.Split(strings.TrimPrefix(k, "document|"), "+")...)
+			fields = append(fields, v...)
+		}
+	}
+	if len(members) > 0 {
+		// content differs: metadata differences of the same comparison are consequences
+		sort.Strings(members)
+		var u []string
+		for i, m := range members {
+			if i == 0 || members[i-1] != m {
+				u = append(u, m)
+			}
+		}
+		sort.Strings(fields)
+		out["document|"+strings.Join(u, "+")] = fields
+		return out
+	}
+	for k, v := range cl {
+		out[k] = v
+	}
+	return out
+}
+
+func rootClasses(ref, got execution, countClass func(refVal, gotVal string) string) map[string][]string {
+	rf, gf := ref.fields(), got.fields()
+	out := map[string][]string{}
+	// counts: independent of document content, always reported
+	rm := map[string]string{}
+	for _, f := range rf {
+		rm[f.Name] = f.Val
+	}
+	for _, f := range gf {
+		if isCount(f.Name) && rm[f.Name] != f.Val {
+			cls := "document-count"
+			if strings.HasSuffix(f.Name, "count/conflicted") {
+				cls = countClass(rm[f.Name], f.Val)
+			}
+			out[cls] = append(out[cls], f.Name)
+		}
+	}
+	direct := func(n string) bool { return !isCount(n) }
+	// stage A
+	if a := memberDiffs(rf, gf, true, direct); len(a) > 0 {
+		for k, v := range foldClasses(a) {
+			out[k] = v
+		}
+		return out
+	}
+	// stage B: every member has the same content; what differs are hashes and/or the order of controllers
+	raw := memberDiffs(rf, gf, false, direct)
+	if v, ok := raw["controller-order"]; ok {
+		out["controller-order"] = v
+		return out
+	}
+	for k, v := range raw {
+		out[k] = v
+	}
+	return out
 }
 
 // ------------------------------------------------------------------ execution
@@ -397,7 +528,10 @@ func run(t *testing.T, c *compiled, order []int, reads int) execution {
 	x.obs = observe(t, in.store, c)
 	for k := 1; k < reads; k++ {
 		if again := observe(t, in.store, c); again.key() != x.obs.key() {
-			x.unstableRead = fmt.Sprint(diffClasses(x.obs, again, func(a, b string) string { return "conflicted-count" }))
+			x.unstableRead = classNames(memberDiffs(x.obs.Fields, again.Fields, false, func(string) bool { return true }))
+			if x.unstableRead == "" {
+				x.unstableRead = "count"
+			}
 		}
 	}
 	// a second store over the same shelves: counts and conflicted set as a restarted node would report them
@@ -433,23 +567,40 @@ func TestVerifC10(t *testing.T) {
 	if r.ReplayCase(&rc) {
 		c := compile(t, rc.Scenario)
 		ref := run(t, c, rc.RefOrder, 2)
-		got := run(t, c, rc.Order, 2)
 		judge(r, c, rc.RefOrder, ref, "reference")
-		judge(r, c, rc.Order, got, "replayed")
-		compare(r, c, rc.RefOrder, ref, rc.Order, got)
-		t.Logf("replayed %s order %v: differing classes %v", c.name, rc.Order, diffClasses(ref.obs, got.obs, func(a, b string) string { return "conflicted-count" }))
+		// a difference that stems from map iteration needs not show in one pair of executions: replay the pair 32 times
+		shownMember := map[string]bool{}
+		for k := 0; k < 32; k++ {
+			got := run(t, c, rc.Order, 2)
+			judge(r, c, rc.Order, got, "replayed")
+			compare(r, c, rc.RefOrder, ref, rc.Order, got)
+			r.Eval(c.name + fmt.Sprint(rc.Order))
+			rm := map[string]string{}
+			for _, f := range append(append([]field{}, ref.obs.Fields...), ref.reopened.Fields...) {
+				rm[f.Name] = f.Val
+			}
+			for _, f := range append(append([]field{}, got.obs.Fields...), got.reopened.Fields...) {
+				if v, ok := rm[f.Name]; ok && v != f.Val && !shownMember[f.Name] {
+					shownMember[f.Name] = true
+					t.Logf("run %d member %s\n  reference order %v: %s\n  replayed order %v: %s", k, f.Name, rc.RefOrder, v, rc.Order, f.Val)
+				}
+			}
+		}
+		for i, e := range c.events {
+			t.Logf("event %d: did %d clock %d time %+ds ref %s.. prevs %v doc %s", i, e.did, e.tx.Clock, e.spec.TimeOff, e.tx.Ref.String()[:6], e.spec.Prevs, e.payload)
+		}
 		return
 	}
 
-	maxAll, repeats, reads := 5, 6, 2
+	maxAll, repeats, reads := 5, 4, 3
 	if r.Thorough() {
-		maxAll, repeats, reads = 7, 16, 3
+		maxAll, repeats, reads = 7, 16, 16
 	}
 	scs := generate(r.Thorough())
 	r.Bound("event_sets", len(scs))
 	r.Bound("max_arrivals_all_permutations", maxAll)
 	r.Bound("repeats_of_causal_order", repeats)
-	r.Bound("reads_per_execution", reads)
+	r.Bound("repeated_final_reads_of_causal_order", reads)
 
 	// work units: (set) for small sets, (set, first arrival) for sets with >= 6 arrivals
 	type unit struct {
@@ -523,7 +674,7 @@ func TestVerifC10(t *testing.T) {
 				r.Eval("")
 				return true
 			}
-			got := run(t, c, perm, reads)
+			got := run(t, c, perm, 1)
 			execs++
 			adds += int64(got.adds)
 			r.Eval(c.name + fmt.Sprint(perm))
@@ -570,6 +721,9 @@ func judge(r *ev.Run, c *compiled, order []int, x execution, label string) {
 	if x.unstableRead != "" {
 		r.Violation("C10|read-stability|"+x.unstableRead, fmt.Sprintf("two consecutive reads of the same store state differ (%s) for set %s", x.unstableRead, c.name), rcase)
 	}
+	if x.obs.byHashMismatch != "" {
+		r.Observation("resolve-by-hash-of-a-stored-version-returns-other-bytes", map[string]any{"set": c.name, "order": order, "where": x.obs.byHashMismatch})
+	}
 	if x.activeAfterDeactivation >= 0 {
 		r.Violation("C10|deactivated|resolves-active-after-deactivation-arrived",
 			fmt.Sprintf("set %s, order %v: after arrival %d a DID whose deactivation had already arrived resolved as active", c.name, order, x.activeAfterDeactivation), rcase)
@@ -605,6 +759,31 @@ func judge(r *ev.Run, c *compiled, order []int, x execution, label string) {
 	}
 }
 
+func memberValue(x execution, name string) string {
+	for _, f := range append(append([]field{}, x.obs.Fields...), x.reopened.Fields...) {
+		if f.Name == name {
+			return f.Val
+		}
+	}
+	return "(absent)"
+}
+
+func clip(s string) string {
+	if len(s) > 1500 {
+		return s[:1500] + "…"
+	}
+	return s
+}
+
+func classNames(m map[string][]string) string {
+	var n []string
+	for k := range m {
+		n = append(n, k)
+	}
+	sort.Strings(n)
+	return strings.Join(n, ",")
+}
+
 func identity(n int) []int {
 	o := make([]int, n)
 	for i := range o {
@@ -617,8 +796,14 @@ func identity(n int) []int {
 func compare(r *ev.Run, c *compiled, refOrder []int, ref execution, order []int, got execution) {
 	if ref.obs.key() == got.obs.key() && ref.reopened.key() == got.reopened.key() {
 		if strings.Join(ref.obs.rawSources, ";") != strings.Join(got.obs.rawSources, ";") {
-			r.Observation("source-transactions-listed-in-different-order", map[string]any{"set": c.name, "order": order,
-				"reference": ref.obs.rawSources, "got": got.obs.rawSources})
+			ex := map[string]any{"set": c.name, "order": order}
+			for i := range ref.obs.rawSources {
+				if i < len(got.obs.rawSources) && ref.obs.rawSources[i] != got.obs.rawSources[i] {
+					ex["reference_order_lists"], ex["this_order_lists"] = ref.obs.rawSources[i], got.obs.rawSources[i]
+					break
+				}
+			}
+			r.Observation("source-transactions-listed-in-different-order", ex)
 		}
 		return
 	}
@@ -651,10 +836,7 @@ func compare(r *ev.Run, c *compiled, refOrder []int, ref execution, order []int,
 		}
 		return "conflicted-count|" + dir + "|" + shape
 	}
-	classes := diffClasses(ref.obs, got.obs, countClass)
-	for k, v := range diffClasses(ref.reopened, got.reopened, countClass) {
-		classes["reopened|"+k] = v
-	}
+	classes := rootClasses(ref, got, countClass)
 	names := make([]string, 0, len(classes))
 	for k := range classes {
 		names = append(names, k)
@@ -671,7 +853,13 @@ func compare(r *ev.Run, c *compiled, refOrder []int, ref execution, order []int,
 		}
 		// one defect = one signature: the class of the difference, not the way it was exposed
 		_ = clause
+		values := map[string][2]string{}
+		for _, m := range classes[cls] {
+			if len(values) < 3 {
+				values[m] = [2]string{clip(memberValue(ref, m)), clip(memberValue(got, m))}
+			}
+		}
 		r.Violation("C10|differential|"+cls, what, replayCase{Scenario: c.sc, Order: order, RefOrder: refOrder,
-			Differs: map[string]any{"class": cls, "members": members, "exposed_by": clause}})
+			Differs: map[string]any{"class": cls, "members": members, "exposed_by": clause, "values_reference_then_this_order": values}})
 	}
 }
